@@ -381,6 +381,10 @@ inline void cbLine(int sid, int slot, MethodId m, const std::string& obs, const 
 		  << " " << (acts.empty() ? std::string(".") : acts) << (thisOk ? "" : " THIS-MISMATCH") << "\n";
 }
 
+// $VH_NOPLANUSE: a build with plans compiled in behaves like one without — callbacks draw exactly the numbers
+// the plans-off build draws and never touch plans or task status (tools/engine_c15.py, pair `plans0`)
+inline bool noPlanUse() { static const bool v = std::getenv("VH_NOPLANUSE") != nullptr; return v; }
+
 template <typename TControl>
 void fullActions(TControl& c, int sid, std::string& acts, unsigned idlePercent) {
 	Script& s = script();
@@ -394,6 +398,7 @@ void fullActions(TControl& c, int sid, std::string& acts, unsigned idlePercent) 
 			performRequest(c, kind, s.destinationFor(sid), s.randomPayload(), acts);
 		}
 #if VH_PLANS
+		else if (noPlanUse()) {}
 		else if (r < 55 + s.knobs.succeed) {
 			const int target = s.prng.chance(85) ? sid : s.randomState(false);
 			{ ApiScope scope; c.succeed(static_cast<hfsm2::StateID>(target)); }
@@ -490,7 +495,7 @@ void onPlan(TControl& c, int sid, int slot, MethodId m, bool thisOk) {
 	std::string acts;
 	(void) sid;
 #if VH_PLANS
-	if (s.prng.chance(s.knobs.planEdit)) {
+	if (!noPlanUse() && s.prng.chance(s.knobs.planEdit)) {
 		if (s.prng.chance(90)) {
 			// the plan addressed is the one of the control's *current* region, whatever that is
 			const int head = regionHeadOf(sid);
